@@ -10,7 +10,7 @@ import (
 )
 
 func init() {
-	registerRule("lockset", 7, "every access to lock-protected state happens with the right lock held on every path, and every exit releases it", ruleLockset)
+	registerRule("lockset", 5, "every access to lock-protected state happens with the right lock held on every path, and every exit releases it", ruleLockset)
 	registerRule("no-call-under-lock", 3, "no call is made while a cache lock is held; sync.Once is used only through Do", ruleNoCallUnderLock)
 	registerRule("globals", 13, "who-may-write inventory of every package-level variable", ruleGlobals)
 	registerRule("ctx-private", 5, "resolver contexts and loaders are created per call and never escape into shared storage", ruleCtxPrivate)
@@ -164,8 +164,9 @@ func ruleLockset(c *Ctx) {
 		return
 	}
 	const W, R, deferredRelease factBits = 1, 2, 4
+	simDone := c.locksetSimObligations(rule, lts)
 	for _, fd := range c.allFuncDecls() {
-		if fd.Body == nil {
+		if fd.Body == nil || simDone[fd] {
 			continue
 		}
 		touches := false
@@ -305,8 +306,9 @@ func ruleNoCallUnderLock(c *Ctx) {
 	const rule = "no-call-under-lock"
 	lts := c.lockedTypes()
 	const held factBits = 1
+	simDone := c.noCallUnderLockSim(rule, lts)
 	for _, fd := range c.allFuncDecls() {
-		if fd.Body == nil {
+		if fd.Body == nil || simDone[fd] {
 			continue
 		}
 		uses := false
@@ -747,6 +749,40 @@ func ruleGlobals(c *Ctx) {
 				}
 				return true
 			})
+			// ... or, with the construction moved into helpers: on the effect normal form every path returns a
+			// value all of whose map-typed fields hold a map made during the call
+			if !fresh {
+				if paths, unsup := c.simulate(sc, nil); unsup == "" && len(paths) > 0 {
+					all := true
+					for _, p := range paths {
+						if len(p.rets) != 1 {
+							all = false
+							continue
+						}
+						st, isStruct := p.rets[0].(svStruct)
+						if !isStruct {
+							all = false
+							continue
+						}
+						nmaps := 0
+						if ts, ok := derefType(st.t).Underlying().(*types.Struct); ok {
+							for i := 0; i < ts.NumFields(); i++ {
+								if _, isMap := ts.Field(i).Type().Underlying().(*types.Map); !isMap {
+									continue
+								}
+								nmaps++
+								if !isMadeSV(st.fields[ts.Field(i).Name()]) {
+									all = false
+								}
+							}
+						}
+						if nmaps == 0 {
+							all = false
+						}
+					}
+					fresh = all
+				}
+			}
 			c.ob(rule, "ShallowClone:fresh-map", sc.Pos(), fresh, "the clone must own a freshly made map, not share the base cache's")
 		} else {
 			c.undecided(rule, "ShallowClone", token.NoPos, "ShallowClone not found")
